@@ -219,6 +219,31 @@ class PEval:
                 return fi.node
         return None
 
+    def _imported_function(self, func):
+        """Closure for `alias.name` where `alias` is an import of a repository module in one of
+        the modules being evaluated and `name` a plain function of it; None otherwise"""
+        from . import symexp
+
+        if not (isinstance(func, ast.Attribute) and isinstance(func.value, ast.Name)):
+            return None
+        prog = symexp._CTX.get("program")
+        if prog is None:
+            return None
+        for mname in getattr(self, "_modules", None) or []:
+            m = prog.modules.get(mname)
+            if m is None or func.value.id not in m.imports:
+                continue
+            try:
+                r = prog.resolve_expr(m, func)
+            except Exception:
+                r = None
+            node = getattr(r, "node", None)
+            if isinstance(node, ast.FunctionDef) and not getattr(r, "is_lambda", False):
+                is_gen = any(isinstance(n, (ast.Yield, ast.YieldFrom)) for n in ast.walk(node))
+                self._note_module(node)
+                return Closure(node, Env(), is_gen)
+        return None
+
     def _note_module(self, fnode):
         from . import symexp
 
@@ -920,7 +945,14 @@ class PEval:
                 node = self.self_obj.methods[e.func.attr]
                 sargs = [self.ev(a, env) for a in e.args]
                 return self._run_function(node, sargs, {k.arg: self.ev(k.value, env) for k in e.keywords if k.arg}, None)
-        f = self.ev(e.func, env)
+        try:
+            f = self.ev(e.func, env)
+        except Undecided:
+            # `module_alias.helper(..)`: a function of another repository module, imported by the
+            # module the evaluated method lives in
+            f = self._imported_function(e.func)
+            if f is None:
+                raise
         args = []
         for a in e.args:
             if isinstance(a, ast.Starred):
